@@ -1,5 +1,11 @@
 import HappyModel.C01.Process
 import HappyProofs.C01.Props
+import HappyProofs.C02.Init
+import HappyProofs.C02.Resume
+import HappyProofs.C02.AllOf
+import HappyProofs.C02.NestedAll
+import HappyProofs.C02.Finish
+import HappyProofs.C02.HooksRun
 /-!
 # C02 — property theorems (process layer)
 
@@ -61,5 +67,370 @@ theorem ret_finishes (now : Nat) (e : Eff) (pid tag : Nat) (p : Proc) (rest : Li
       simp [addObs, Eff.push]
   rw [hh]
   by_cases hst : p.started = true <;> simp [hst, addObs, hlen]
+
+/-! ## run-level theorems
+
+A *pending resumption* of process `pid` is a continuation event in the heap (`data = pid + 1`) or a
+future with `parked = some pid`.  The hypotheses on the initial state are `InitOk` (only plain events
+pending, no process yet, nobody parked); `Program.initState` satisfies it for every program whose
+pre-run schedule consists of plain events (`initState_ok`; `parseProgram` only produces such).
+
+The model does not reject a second process parking on a future that already has one (the code
+raises `RuntimeError`), nor rebinding a slot; in those cases the displaced process has *no* pending
+resumption.  The invariant therefore says "at most one", which is the part of "resumed exactly once"
+that can fail silently; "at least one at the resolve instant" is `future_resume_once`. -/
+
+/-- a small program that parks a process on future 0 (t = 1), resolves it with 7 from another
+    handler (t = 2), and lets the process finish with completion hook 4 -/
+def demoProg : Program :=
+  { defs := [⟨0, 1, true, [⟨[], .yieldF 0⟩, ⟨[], .ret⟩]⟩, ⟨0, 2, false, [⟨[.resolve 0 7], .ret⟩]⟩],
+    pre := [(⟨1, 0, 1, false, 0, 1⟩, 4, false), (⟨2, 0, 2, false, 0, 2⟩, 0, false)] }
+
+/-- **at most one pending resumption per process, along every run**: for every handler table, every
+    initial state satisfying `InitOk`, every end time and every number of loop iterations, `ProcInv`
+    holds: each process has at most one pending resumption (continuation event or park), parks are on
+    unresolved futures only, continuation events and parks refer to existing processes, and a
+    finished process has neither a continuation nor a park nor code left -/
+theorem one_pending_continuation (endT : Option Nat) (n : Nat) (s0 : St PS) (h0 : InitOk s0) :
+    ProcInv (run procMachine endT n s0) :=
+  run_procInv endT n s0 h0.procInv
+
+/-- the same from the initial state of any program with a plain pre-run schedule -/
+theorem one_pending_continuation_program (p : Program) (gateCont : Bool) (hp : p.Plain) (endT : Option Nat)
+    (n : Nat) : ProcInv (run procMachine endT n (p.initState gateCont)) :=
+  one_pending_continuation endT n _ (initState_ok p gateCont hp)
+
+/-- the invariant is inductive from any state, whichever pending event the loop pops -/
+theorem pending_invariant_step (s : St PS) (m : Ev) (inv : ProcInv s) (hm : m ∈ s.heap) :
+    ProcInv (stepWith procMachine s m) := step_procInv s m inv hm
+
+-- non-vacuity: the demo program is plain; after one iteration process 0 is parked on future 0,
+-- after two its continuation (and nothing else of it) is pending at the resolve instant t = 2,
+-- after three both processes are finished
+example : demoProg.Plain := by unfold Program.Plain; decide
+example : (futGet (run procMachine none 1 (demoProg.initState false)).ent.futs 0).parked = some 0 := by decide
+example : (run procMachine none 2 (demoProg.initState false)).heap.map (fun e => (e.time, e.data)) = [(2, 1)] := by
+  decide
+example : (run procMachine none 3 (demoProg.initState false)).ent.procs.map (·.done) = [true, true] := by decide
+
+/-- inside any handler invocation started in a reachable state — after the segment prologue and any
+    prefix of its actions — the effect is well formed and every process has at most one pending
+    resumption (continuation specs created so far + parks) -/
+theorem handler_effect_ok (s : St PS) (inv : ProcInv s) (now pid tag : Nat) (p : Proc) (acts : List Act) :
+    WF (acts.foldl (runAct now) (segStart now { ps := s.ent } pid tag p)) ∧
+    ∀ q, cnt (acts.foldl (runAct now) (segStart now { ps := s.ent } pid tag p)) q ≤ 1 := by
+  have h0 : Bnd (cntPark s.ent.futs) (segStart now { ps := s.ent } pid tag p) := by
+    unfold segStart
+    apply Bnd_setProc
+    split
+    · exact Bnd_addObs _ _ _ (Bnd_init s inv)
+    · exact Bnd_init s inv
+  have h1 := acts_closed (Bnd_closed _) now acts _ h0
+  refine ⟨h1.1, fun q => Nat.le_trans (h1.2 q) ?_⟩
+  have := inv.atMostOne q
+  omega
+
+/-- **a parked process is resumed exactly once, at the instant of the resolve, with the value.**
+    In a well-formed effect in which `pid` has at most one pending resumption (`handler_effect_ok`:
+    every effect reached along a run), `resolve(f, v)` on an unresolved future on which `pid` is
+    parked creates exactly one continuation of `pid` in that call — `contSpec p pid now`, i.e. at the
+    current clock with the process's own target/kind/daemon — and none before or after it in the
+    cascade (`cntSpec … = 0`); `f` ends up resolved with `v` and un-parked, the process record holds
+    `v` as the value to send; `pid` still has at most one pending resumption; and a later `resolve`
+    of `f` (any value, any time) changes nothing (no second continuation). -/
+theorem future_resume_once (fuel : Nat) (e : Eff) (now f pid : Nat) (v : Val) (p : Proc)
+    (hw : WF e) (hone : cnt e pid ≤ 1)
+    (hr : (futGet e.ps.futs f).resolved = false) (hpk : (futGet e.ps.futs f).parked = some pid)
+    (hp : e.ps.procs[pid]? = some p) :
+    (∃ more, (resolveFut (fuel + 1) e now f v).specs = e.specs ++ contSpec p pid now :: more ∧
+      cntSpec e.specs pid = 0 ∧ cntSpec more pid = 0) ∧
+    (contSpec p pid now).time = now ∧ (contSpec p pid now).data = pid + 1 ∧
+    (futGet (resolveFut (fuel + 1) e now f v).ps.futs f).resolved = true ∧
+    (futGet (resolveFut (fuel + 1) e now f v).ps.futs f).value = v ∧
+    (futGet (resolveFut (fuel + 1) e now f v).ps.futs f).parked = none ∧
+    (∃ q, (resolveFut (fuel + 1) e now f v).ps.procs[pid]? = some q ∧ q.send = v) ∧
+    cnt (resolveFut (fuel + 1) e now f v) pid ≤ 1 ∧
+    (∀ fuel' now' v', resolveFut fuel' (resolveFut (fuel + 1) e now f v) now' f v'
+        = resolveFut (fuel + 1) e now f v) := by
+  obtain ⟨more, h1, h2, h3, h4, h5, h6, h7, h8, h9⟩ := resolve_resumes_parked fuel e now f pid v p hw hone hr hpk hp
+  exact ⟨⟨more, h1, h2, h3⟩, rfl, rfl, h4, h5, h6, h7, h9,
+    fun fuel' now' v' => resolve_twice_noop fuel fuel' e now now' f v v' hr⟩
+
+-- non-vacuity: in the reachable state after one iteration of the demo program (process 0 parked on
+-- the unresolved future 0) all hypotheses hold for the effect a handler starts with
+example :
+    let s := run procMachine none 1 (demoProg.initState false)
+    (WF ({ ps := s.ent } : Eff) ∧ cnt ({ ps := s.ent } : Eff) 0 ≤ 1) ∧
+    (futGet s.ent.futs 0).resolved = false ∧ (futGet s.ent.futs 0).parked = some 0 ∧
+    (s.ent.procs[0]?).isSome = true := by
+  refine ⟨?_, by decide, by decide, by decide⟩
+  have inv := one_pending_continuation_program demoProg false (by unfold Program.Plain; decide) none 1
+  have h := Bnd_init _ inv
+  refine ⟨h.1, Nat.le_trans (h.2 0) ?_⟩
+  have := inv.atMostOne 0
+  omega
+
+/-- **parking on an already-resolved future resumes at once**: a segment ending in `yield f`, where
+    `f` is resolved when the yield is reached, creates as its last spec exactly one continuation of
+    the process at the current clock, leaves nobody parked on `f`, and stores `f`'s value as the value
+    to send (the remaining segments are the rest of the script) -/
+theorem park_on_resolved_resumes_at_once (now : Nat) (e : Eff) (pid tag : Nat) (p : Proc) (acts : List Act)
+    (f : Nat) (rest : List Seg) (hp : e.ps.procs[pid]? = some p) (hs : p.segs = ⟨acts, .yieldF f⟩ :: rest)
+    (hres : (futGet (acts.foldl (runAct now) (segStart now e pid tag p)).ps.futs f).resolved = true) :
+    (runSegment now e pid tag).specs
+        = (acts.foldl (runAct now) (segStart now e pid tag p)).specs ++ [contSpec p pid now] ∧
+    (contSpec p pid now).time = now ∧ (contSpec p pid now).data = pid + 1 ∧
+    (futGet (runSegment now e pid tag).ps.futs f).parked = none ∧
+    ∃ q, (runSegment now e pid tag).ps.procs[pid]? = some q ∧
+      q.send = (futGet (acts.foldl (runAct now) (segStart now e pid tag p)).ps.futs f).value ∧ q.segs = rest := by
+  have := park_on_resolved_resumes_at_once' now e pid tag p acts f rest hp hs hres
+  exact ⟨this.1, rfl, rfl, this.2.1, this.2.2⟩
+
+/-- **parking on an unresolved future waits**: the segment creates no continuation for the process; it is
+    recorded as parked on `f` (and is resumed by the `resolve` of `f`: `future_resume_once`) -/
+theorem park_on_unresolved_waits (now : Nat) (e : Eff) (pid tag : Nat) (p : Proc) (acts : List Act)
+    (f : Nat) (rest : List Seg) (hp : e.ps.procs[pid]? = some p) (hs : p.segs = ⟨acts, .yieldF f⟩ :: rest)
+    (hres : (futGet (acts.foldl (runAct now) (segStart now e pid tag p)).ps.futs f).resolved = false) :
+    (runSegment now e pid tag).specs = (acts.foldl (runAct now) (segStart now e pid tag p)).specs ∧
+    (futGet (runSegment now e pid tag).ps.futs f).parked = some pid ∧
+    (futGet (runSegment now e pid tag).ps.futs f).resolved = false :=
+  park_on_unresolved_waits' now e pid tag p acts f rest hp hs hres
+
+-- non-vacuity: a process whose next segment resolves future 0 itself and then yields it
+example :
+    let p : Proc := { ent := 0, kind := 1, daemon := false, segs := [⟨[.resolve 0 7], .yieldF 0⟩, ⟨[], .ret⟩], hooks := [] }
+    let e : Eff := { ps := { defs := [], nid := 0, procs := [p] } }
+    (futGet (([Act.resolve 0 7]).foldl (runAct 5) (segStart 5 e 0 0 p)).ps.futs 0).resolved = true ∧
+    (runSegment 5 e 0 0).specs.map (fun s => (s.time, s.data)) = [(5, 1)] := by decide
+
+/-! ## any_of / all_of (one level: inputs are plain futures)
+
+`AnyShape e f gs` / `AllShape e f gs` (in `HappyProofs/C02/Combinators.lean`) describe the future
+table while the composite `f` over the pairwise distinct plain futures `gs` is still unresolved:
+each unresolved input holds exactly the callback of `f` for its position; for `all_of`, `remaining`
+is the number of unresolved inputs and every settled input has its value in its slot. -/
+
+/-- `f := any_of(gs…)` over pairwise distinct, unresolved, callback-free futures establishes the shape -/
+theorem anyof_construct (now : Nat) (e : Eff) (f : Nat) (gs : List Nat) (hnd : gs.Nodup) (hf : f ∉ gs)
+    (hgs : ∀ g ∈ gs, (futGet e.ps.futs g).resolved = false ∧ (futGet e.ps.futs g).cbs = []) :
+    AnyShape (runAct now e (.anyOf f gs)) f gs := anyOf_shape now e f gs hnd hf hgs
+
+/-- **any_of resumes with the (index, value) of the first input to resolve.**  While `f = any_of(gs)` is
+    unresolved, resolving input `gs[i]` with `v` resolves `f` with `(i, v)` in the same call; no later
+    resolution (of another input or of anything else, at any time, with any value) changes `f`; and a
+    process parked on `f` gets its continuation in that call, at the current clock, with `(i, v)` as
+    the value to send -/
+theorem anyof_first (fuel : Nat) (e : Eff) (now f : Nat) (gs : List Nat) (i : Nat) (v : Val)
+    (sh : AnyShape e f gs) (hi : i < gs.length) :
+    (futGet (resolveFut (fuel + 2) e now gs[i] v).ps.futs f).resolved = true ∧
+    (futGet (resolveFut (fuel + 2) e now gs[i] v).ps.futs f).value = .pair i v ∧
+    (∀ fuel' now' g w,
+      (futGet (resolveFut fuel' (resolveFut (fuel + 2) e now gs[i] v) now' g w).ps.futs f).resolved = true ∧
+      (futGet (resolveFut fuel' (resolveFut (fuel + 2) e now gs[i] v) now' g w).ps.futs f).value = .pair i v) ∧
+    (∀ pid p, (futGet e.ps.futs f).parked = some pid → e.ps.procs[pid]? = some p →
+      ∃ c, (resolveFut (fuel + 2) e now gs[i] v).specs.getLast? = some c ∧ c.time = now ∧ c.data = pid + 1 ∧
+        ∃ q, (resolveFut (fuel + 2) e now gs[i] v).ps.procs[pid]? = some q ∧ q.send = .pair i v) :=
+  anyof_first_core fuel e now f gs i v sh hi
+
+/-- three plain futures, then `2 := any_of(0, 1)` / `2 := all_of(0, 1)`, process 0 parked on future 2 -/
+def demoEff (a : Act) : Eff :=
+  let p : Proc := { ent := 0, kind := 1, daemon := false, segs := [⟨[], .ret⟩], hooks := [] }
+  let e : Eff := { ps := { defs := [], nid := 0, procs := [p], futs := [{}, {}, {}] } }
+  let e1 := runAct 0 e a
+  e1.setFut 2 { futGet e1.ps.futs 2 with parked := some 0 }
+
+-- non-vacuity: the construction hypotheses hold, and resolving input 1 first with 9 at t = 5 resolves
+-- the composite with (1, 9), resumes the waiter at t = 5, and a later resolve of input 0 changes nothing
+example : [0, 1].Nodup ∧ 2 ∉ [0, 1] := by decide
+example : ∀ g ∈ [0, 1], (futGet (demoEff (.fresh 3)).ps.futs g).resolved = false ∧
+    (futGet (demoEff (.fresh 3)).ps.futs g).cbs.length = 0 := by decide
+example :
+    let r := resolveFut depthFuel (demoEff (.anyOf 2 [0, 1])) 5 1 (.n 9)
+    (futGet r.ps.futs 2).resolved = true ∧ r.specs.map (fun c => (c.time, c.data)) = [(5, 1)] ∧
+    (resolveFut depthFuel r 6 0 (.n 4)).specs.length = 1 := by decide
+example : (futGet (resolveFut depthFuel (demoEff (.anyOf 2 [0, 1])) 5 1 (.n 9)).ps.futs 2).value
+    = .pair 1 (.n 9) := rfl
+
+/-- `f := all_of(gs…)` over pairwise distinct, unresolved, callback-free futures establishes the shape -/
+theorem allof_construct (now : Nat) (e : Eff) (f : Nat) (gs : List Nat) (hnd : gs.Nodup) (hf : f ∉ gs)
+    (hgs : ∀ g ∈ gs, (futGet e.ps.futs g).resolved = false ∧ (futGet e.ps.futs g).cbs = []) :
+    AllShape (runAct now e (.allOf f gs)) f gs := allOf_shape now e f gs hnd hf hgs
+
+/-- **all_of resolves exactly when its last input settles, with every value in argument order.**
+    While `f = all_of(gs)` is unresolved (`AllShape`; `remaining` = number of unresolved inputs),
+    resolving an unresolved input `gs[i]` with `v`:
+    * if other inputs are still missing (`remaining ≠ 1`): `f` stays unresolved and the shape holds
+      again with exactly one input fewer missing;
+    * if it was the last one (`remaining = 1`): `f` is resolved in the same call with the list of the
+      inputs' values in argument order, and every input is resolved. -/
+theorem allof_all (fuel : Nat) (e : Eff) (now f : Nat) (gs : List Nat) (i : Nat) (v : Val)
+    (sh : AllShape e f gs) (hi : i < gs.length) (hun : (futGet e.ps.futs gs[i]).resolved = false) :
+    ((futGet e.ps.futs f).remaining ≠ 1 →
+      AllShape (resolveFut (fuel + 2) e now gs[i] v) f gs ∧
+      (futGet (resolveFut (fuel + 2) e now gs[i] v).ps.futs f).remaining + 1 = (futGet e.ps.futs f).remaining) ∧
+    ((futGet e.ps.futs f).remaining = 1 →
+      (futGet (resolveFut (fuel + 2) e now gs[i] v).ps.futs f).resolved = true ∧
+      (futGet (resolveFut (fuel + 2) e now gs[i] v).ps.futs f).value
+        = .list (gs.map (fun g => (futGet (resolveFut (fuel + 2) e now gs[i] v).ps.futs g).value)) ∧
+      ∀ g ∈ gs, (futGet (resolveFut (fuel + 2) e now gs[i] v).ps.futs g).resolved = true) :=
+  allof_step_core fuel e now f gs i v sh hi hun
+
+-- non-vacuity: input 1 settles first (composite still unresolved, one missing), then input 0: the
+-- composite resolves with [4, 9] — argument order, not resolution order — and the waiter resumes
+example :
+    let r1 := resolveFut depthFuel (demoEff (.allOf 2 [0, 1])) 5 1 (.n 9)
+    let r2 := resolveFut depthFuel r1 6 0 (.n 4)
+    (futGet (demoEff (.allOf 2 [0, 1])).ps.futs 2).remaining = 2 ∧
+    (futGet r1.ps.futs 2).resolved = false ∧ (futGet r1.ps.futs 2).remaining = 1 ∧ r1.specs.length = 0 ∧
+    (futGet r2.ps.futs 2).resolved = true ∧ r2.specs.map (fun c => (c.time, c.data)) = [(6, 1)] := by decide
+example :
+    (futGet (resolveFut depthFuel (resolveFut depthFuel (demoEff (.allOf 2 [0, 1])) 5 1 (.n 9)) 6 0 (.n 4)).ps.futs 2).value
+    = .list [.n 4, .n 9] := rfl
+
+/-! ### nested combinators
+
+Inputs that are themselves composites settle inside a callback cascade, not by a direct `resolve`.
+The callback graph is *ranked* (`RankOk rk`: every callback points to a composite of strictly smaller
+rank — true of every combinator tree, since a composite is created after its inputs) and the fuel of
+the call exceeds the rank of the resolved future (`depthFuel = 64` in the driver), so the cascade is
+never cut short.  Futures may be shared: an input may carry callbacks into other composites too. -/
+
+/-- **nested any_of.**  Each unresolved input `gs[i]` carries the callback `anyCb f i` and every
+    callback into `f` is one of these.  Whenever one `resolve` call on `h ≠ f` takes `f = any_of(gs)`
+    from "no input resolved" to "some input resolved", `f` is resolved after that call with `(i, v)` for
+    an input `i` that is resolved with `v` -/
+theorem anyof_first_nested (rk : Nat → Nat) (fuel : Nat) (e : Eff) (now f h : Nat) (gs : List Nat) (w : Val)
+    (hrank : RankOk rk e) (hfuel : rk h < fuel) (hhf : h ≠ f) (hf : f ∉ gs)
+    (hunf : (futGet e.ps.futs f).resolved = false)
+    (hin : ∀ i (hi : i < gs.length), (futGet e.ps.futs gs[i]).resolved = false ∧
+      Cb.anyCb f i ∈ (futGet e.ps.futs gs[i]).cbs ∧
+      ∀ cb ∈ (futGet e.ps.futs gs[i]).cbs, cb.tgt = f → cb = .anyCb f i)
+    (hoth : ∀ g, g ∉ gs → ∀ cb ∈ (futGet e.ps.futs g).cbs, cb.tgt ≠ f)
+    (hsome : ∃ i, ∃ hi : i < gs.length, (futGet (resolveFut fuel e now h w).ps.futs gs[i]).resolved = true) :
+    ∃ i, ∃ hi : i < gs.length, (futGet (resolveFut fuel e now h w).ps.futs gs[i]).resolved = true ∧
+      (futGet (resolveFut fuel e now h w).ps.futs f).resolved = true ∧
+      (futGet (resolveFut fuel e now h w).ps.futs f).value
+        = .pair i (futGet (resolveFut fuel e now h w).ps.futs gs[i]).value :=
+  anyof_nested_core rk fuel e now f h gs w hrank hfuel hhf hf hunf hin hoth hsome
+
+/-- **nested all_of.**  Pairwise distinct inputs; each unresolved input carries exactly one callback
+    into `f`, `allCb f i`; a settled input has its value in its slot; `remaining` = number of unresolved
+    inputs ≥ 1.  After any `resolve` call on `h ≠ f`: `f` is resolved iff every input is, and then its
+    value is the list of the inputs' values in argument order -/
+theorem allof_all_nested (rk : Nat → Nat) (fuel : Nat) (e : Eff) (now f h : Nat) (gs : List Nat) (w : Val)
+    (hrank : RankOk rk e) (hfuel : rk h < fuel) (hhf : h ≠ f) (hnd : gs.Nodup) (hf : f ∉ gs)
+    (hunf : (futGet e.ps.futs f).resolved = false)
+    (hlen : (futGet e.ps.futs f).results.length = gs.length)
+    (hrem : (futGet e.ps.futs f).remaining = gs.countP (fun g => !(futGet e.ps.futs g).resolved))
+    (hpos : 1 ≤ (futGet e.ps.futs f).remaining)
+    (hin : ∀ i (hi : i < gs.length),
+      ((futGet e.ps.futs gs[i]).resolved = true →
+        (futGet e.ps.futs f).results[i]? = some (futGet e.ps.futs gs[i]).value) ∧
+      ((futGet e.ps.futs gs[i]).resolved = false →
+        (futGet e.ps.futs gs[i]).cbs.countP (fun cb => cb.tgt == f) = 1 ∧
+        ∀ cb ∈ (futGet e.ps.futs gs[i]).cbs, cb.tgt = f → cb = .allCb f i))
+    (hoth : ∀ g, g ∉ gs → ∀ cb ∈ (futGet e.ps.futs g).cbs, cb.tgt ≠ f) :
+    ((futGet (resolveFut fuel e now h w).ps.futs f).resolved = true ↔
+      ∀ g ∈ gs, (futGet (resolveFut fuel e now h w).ps.futs g).resolved = true) ∧
+    ((futGet (resolveFut fuel e now h w).ps.futs f).resolved = true →
+      (futGet (resolveFut fuel e now h w).ps.futs f).value
+        = .list (gs.map (fun g => (futGet (resolveFut fuel e now h w).ps.futs g).value))) :=
+  allof_nested_core rk fuel e now f h gs w hrank hfuel hhf hnd hf hunf hlen hrem hpos hin hoth
+
+/-- plain futures 0 1 2; `3 := any_of(0, 1)`; `4 := all_of(3, 2)`; `5 := any_of(4, 0)` (future 0 is
+    shared); ranks: leaves 3, future 3 ↦ 2, future 4 ↦ 1, future 5 ↦ 0 -/
+def nestedEff : Eff :=
+  [Act.anyOf 3 [0, 1], Act.allOf 4 [3, 2], Act.anyOf 5 [4, 0]].foldl (runAct 0)
+    { ps := { defs := [], nid := 0, futs := [{}, {}, {}] } }
+def nestedRk (g : Nat) : Nat := if g = 3 then 2 else if g = 4 then 1 else if g = 5 then 0 else 3
+
+theorem forall_fut_of_bounded (e : Eff) (Q : Nat → List Cb → Prop) (hnil : ∀ g, Q g [])
+    (h : ∀ g, g < e.ps.futs.length → Q g (futGet e.ps.futs g).cbs) : ∀ g, Q g (futGet e.ps.futs g).cbs := by
+  intro g
+  by_cases hg : g < e.ps.futs.length
+  · exact h g hg
+  · rw [futGet_default _ _ (by omega)]; exact hnil g
+
+-- non-vacuity of the nested hypotheses (all_of 4 over the composite 3 and the leaf 2; any_of 5 over the
+-- composite 4 and the shared leaf 0), and the conclusions on this instance: resolving leaf 1 settles 3
+-- but not 4; resolving leaf 2 afterwards settles 4 with [(1, 9), 7] and thereby 5 with (0, [(1, 9), 7])
+example : RankOk nestedRk nestedEff :=
+  fun g cb => forall_fut_of_bounded nestedEff (fun g cbs => ∀ cb ∈ cbs, nestedRk cb.tgt < nestedRk g)
+    (by simp) (by decide) g cb
+example : (∀ g, g ∉ [3, 2] → ∀ cb ∈ (futGet nestedEff.ps.futs g).cbs, cb.tgt ≠ 4) :=
+  fun g hg => forall_fut_of_bounded nestedEff (fun g cbs => g ∉ [3, 2] → ∀ cb ∈ cbs, cb.tgt ≠ 4)
+    (by simp) (by decide) g hg
+example : [3, 2].Nodup ∧ 4 ∉ [3, 2] ∧ (futGet nestedEff.ps.futs 4).resolved = false ∧
+    (futGet nestedEff.ps.futs 4).results.length = 2 ∧ (futGet nestedEff.ps.futs 4).remaining = 2 ∧
+    [3, 2].countP (fun g => !(futGet nestedEff.ps.futs g).resolved) = 2 ∧
+    (∀ i (hi : i < [3, 2].length), (futGet nestedEff.ps.futs [3, 2][i]).resolved = false ∧
+      (futGet nestedEff.ps.futs [3, 2][i]).cbs.countP (fun cb => cb.tgt == 4) = 1) := by decide
+example :
+    let r1 := resolveFut depthFuel nestedEff 5 1 (.n 9)
+    let r2 := resolveFut depthFuel r1 6 2 (.n 7)
+    (futGet r1.ps.futs 3).resolved = true ∧ (futGet r1.ps.futs 4).resolved = false ∧
+    (futGet r1.ps.futs 5).resolved = false ∧
+    (futGet r2.ps.futs 4).resolved = true ∧ (futGet r2.ps.futs 5).resolved = true := by decide
+example :
+    (futGet (resolveFut depthFuel (resolveFut depthFuel nestedEff 5 1 (.n 9)) 6 2 (.n 7)).ps.futs 5).value
+      = .pair 0 (.list [.pair 1 (.n 9), .n 7]) := rfl
+
+/-! ## finishing -/
+
+/-- **a process finishes at most once**: along every run, the log holds at most one `finish` entry per
+    process id — exactly one iff the process is marked done — and a finished process has no
+    completion hooks and no code left, so neither its hooks nor its return can take effect again -/
+theorem finish_once (endT : Option Nat) (n : Nat) (s0 : St PS) (h0 : InitOk s0)
+    (hobs : ∀ q, finCount s0.ent.obs q = 0) (pid : Nat) :
+    finCount (run procMachine endT n s0).ent.obs pid ≤ 1 ∧
+    (finCount (run procMachine endT n s0).ent.obs pid = 1 ↔
+      ∃ p, (run procMachine endT n s0).ent.procs[pid]? = some p ∧ p.done = true) ∧
+    (∀ p, (run procMachine endT n s0).ent.procs[pid]? = some p → p.done = true → p.hooks = [] ∧ p.segs = []) := by
+  have h := run_finInv endT n s0 (InitOk_finInv s0 h0.noProcs hobs)
+  generalize run procMachine endT n s0 = s at h
+  have h1 : finCount s.ent.obs pid = doneInd (s.ent.procs.map strip) pid := h.1 pid
+  refine ⟨by rw [h1]; exact doneInd_le_one _ _, by rw [h1]; exact doneInd_strip_one _ _, ?_⟩
+  intro p hp hd
+  have := h.2 pid (strip p) (by simp [hp]) (by simpa [strip] using hd)
+  simpa [strip] using this
+
+/-- **the finishing step**: the segment that returns logs `finish` at the current instant and then runs
+    each completion hook of the originating event exactly once, in order, at that same instant (one
+    `hook` entry and one hook event per hook); afterwards the hook list is empty (`finish_once`) -/
+theorem finishing_step_runs_hooks_once (now : Nat) (e : Eff) (pid tag : Nat) (p : Proc) (acts : List Act)
+    (rest : List Seg) (hp : e.ps.procs[pid]? = some p) (hs : p.segs = ⟨acts, .ret⟩ :: rest) :
+    (runSegment now e pid tag).ps.obs
+      = (p.hooks.map (fun h => Obs.hook now h)).reverse ++
+          Obs.finish now pid :: (acts.foldl (runAct now) (segStart now e pid tag p)).ps.obs ∧
+    (runSegment now e pid tag).specs.length
+      = (acts.foldl (runAct now) (segStart now e pid tag p)).specs.length + p.hooks.length :=
+  ret_runs_hooks_once now e pid tag p acts rest hp hs
+
+-- non-vacuity: in the demo run, process 0 (completion hook 4) has finished once and its hook ran once
+example :
+    let s := run procMachine none 4 (demoProg.initState false)
+    finCount s.ent.obs 0 = 1 ∧
+    s.ent.obs.countP (fun o => match o with | .hook _ 4 => true | _ => false) = 1 := by decide
+example : ∀ q, finCount (demoProg.initState false).ent.obs q = 0 := fun _ => rfl
+
+/-- **completion hooks run at most once per attachment, along every run**: for every program, end time,
+    number of iterations and hook value `h`, the log holds at most as many `hook _ h` entries as `h` was
+    attached to events.  (Accounting: hook entries + hooks held by unfinished processes ≤ attachments
+    whose event has been popped; by the engine invariant of C01 an event id is popped at most once.) -/
+theorem hooks_at_most_once (p : Program) (gateCont : Bool) (endT : Option Nat) (n h : Nat) :
+    hookRuns (run procMachine endT n (p.initState gateCont)).ent.obs h
+      ≤ att (run procMachine endT n (p.initState gateCont)).ent.hookOf h :=
+  hooks_le_attached endT n _ (initState_inv p gateCont) (initState_hookInv p gateCont) h
+
+/-- the same from any state that satisfies the engine invariant and the hook accounting; both are
+    preserved by every loop iteration (`step_preserves`, `step_hookInv`) -/
+theorem hooks_at_most_once_from (endT : Option Nat) (n : Nat) (s : St PS) (inv : Inv s) (hk : HookInv s) (h : Nat) :
+    hookRuns (run procMachine endT n s).ent.obs h ≤ att (run procMachine endT n s).ent.hookOf h :=
+  hooks_le_attached endT n s inv hk h
+
+-- non-vacuity: in the demo run hook 4 is attached once and has run once
+example :
+    let s := run procMachine none 4 (demoProg.initState false)
+    hookRuns s.ent.obs 4 = 1 ∧ att s.ent.hookOf 4 = 1 := by decide
 
 end HappyModel.C01
